@@ -181,6 +181,12 @@ pub enum Work {
     /// *after* alpha is known so that the whole quotient identity holds on the
     /// domain although a gate (or copy constraint) is violated
     AdaptiveZ(Inst),
+    /// S8: the adversary bets that `u` (the only challenge the prover never
+    /// uses) does not depend on the opening witnesses and solves W_z, W_zw after
+    /// everything else is fixed - on a forced proof of a violated instance, on
+    /// an honest proof presented with wrong public inputs, and on an
+    /// all-identity proof
+    AdaptiveW(Inst),
 }
 
 #[derive(Clone, Debug)]
@@ -369,6 +375,13 @@ pub fn build_world(tier: Tier) -> Result<World, String> {
             let viol = if b.family == "copy" { copy_breaks(b).into_iter().next() } else { first_violation(b) };
             if let Some((dn, inst)) = viol {
                 items.push(Item { name: format!("S7/{}/{}", b.name, dn), strategy: "S7", base: bi, work: Work::AdaptiveZ(inst) });
+            }
+        }
+        // S8
+        {
+            let viol = if b.family == "copy" { copy_breaks(b).into_iter().next() } else { first_violation(b) };
+            if let Some((dn, inst)) = viol {
+                items.push(Item { name: format!("S8/{}/{}", b.name, dn), strategy: "S8", base: bi, work: Work::AdaptiveW(inst) });
             }
         }
         // S6
@@ -819,6 +832,63 @@ pub fn run_item(w: &World, it: &Item) -> ItemOut {
                     match m3::prove(&b.pd, &i3, &m3::base_draws(6), m3ver(ver), &adv) {
                         Ok((bytes, _)) => pr.all(&format!("adaptive-z/{}", ver.name()), &bytes, &i3.pi_values(), &[], true, None, false),
                         Err(e) => out.notes.push(format!("adaptive z ({}): {}", ver.name(), e)),
+                    }
+                }
+            }
+        }
+        Work::AdaptiveW(inst) => {
+            let prog = b.prog(inst);
+            if classify(b, &prog, &mut out).is_none() {
+                return out;
+            }
+            let honest = b.honest(0);
+            for pver in [Version::V3, Version::V2] {
+                let _g = ForceGuard::on();
+                let forced = real_prove(b, &prog, pver, 40, true);
+                drop(_g);
+                let hon = real_prove(b, &b.prog(&honest), pver, 41, false);
+                let mut bases: Vec<(String, Vec<u8>, Vec<Fe>)> = vec![];
+                if let Ok((bytes, pis)) = forced {
+                    bases.push((format!("forced-{}", pver.name()), bytes, pis));
+                }
+                if let Ok((bytes, pis)) = hon {
+                    // true proof, false statement: another public-input vector
+                    let mut wrong = pis.clone();
+                    if wrong.is_empty() {
+                        // no public input to lie about: keep the forced base only
+                    } else {
+                        wrong[0] += one();
+                        bases.push((format!("honest-wrong-pi-{}", pver.name()), bytes.clone(), wrong));
+                    }
+                    // all-identity commitments, zero evaluations
+                    let mut d = vec![0u8; 1008];
+                    let id = G1Affine::identity().to_bytes();
+                    for k in 0..11 {
+                        d[k * 48..k * 48 + 48].copy_from_slice(&id);
+                    }
+                    let mut lie = pis.clone();
+                    if !lie.is_empty() {
+                        lie[0] += fe(2);
+                    }
+                    bases.push((format!("all-identity-{}", pver.name()), d, lie));
+                }
+                for (bn, bytes, pis) in bases {
+                    let Ok(pd0) = m2::parse_proof(&bytes) else { continue };
+                    // one forgery per targeted verifier version (transcript seeding / equation differ)
+                    for tver in VERSIONS {
+                        let ch = m2::challenges_u_before_openings(&b.circ.vd, &pd0, &pis, tver);
+                        let Some(f) = m2::forge_openings(&b.circ.vd, &pd0, &pis, tver, ch) else {
+                            out.notes.push(format!("S8 {}: forging impossible for {}", bn, tver.name()));
+                            continue;
+                        };
+                        // the forgery must satisfy the equation under the bet challenges (self-check)
+                        let ok = m2::verify_trace_ch(&b.circ.vd, &f, &pis, tver, m2::challenges_u_before_openings(&b.circ.vd, &f, &pis, tver)).map_or(false, |t| t.accept);
+                        if !ok {
+                            out.notes.push(format!("S8 {} for {}: forged openings do not balance under the bet", bn, tver.name()));
+                            continue;
+                        }
+                        out.forge_status.push((format!("S8/{}/{}", bn, tver.name()), "balanced-under-bet".into()));
+                        pr.all(&format!("adaptive-openings/{}/target-{}", bn, tver.name()), &m2::proof_to_bytes(&f), &pis, &[], true, None, false);
                     }
                 }
             }
